@@ -1,1 +1,802 @@
-//! (stub)
+//! Hand assembler for `.debug_ranges`, `.debug_loc`, `.debug_rnglists`, `.debug_loclists`,
+//! `.debug_loc.dwo` (GNU), `.debug_addr` and a minimal `.debug_info`/`.debug_abbrev` around
+//! them (C08).  Written with `crate::asm` only; numeric constants are from the DWARF
+//! standard, not from gimli.
+
+use crate::asm::{uleb_bytes, uleb_padded, Asm, Enc, Field, FieldKind};
+use crate::model::lists::{self as m, AddrVal, DieAttr, Flavor, Item};
+use crate::rt::Rng;
+
+// ---------------------------------------------------------------- constants (DWARF 5 ch. 7)
+
+pub mod dwc {
+    pub const TAG_COMPILE_UNIT: u64 = 0x11;
+    pub const TAG_SKELETON_UNIT: u64 = 0x4a;
+    pub const TAG_SUBPROGRAM: u64 = 0x2e;
+    pub const TAG_VARIABLE: u64 = 0x34;
+    pub const TAG_LEXICAL_BLOCK: u64 = 0x0b;
+
+    pub const AT_LOCATION: u64 = 0x02;
+    pub const AT_NAME: u64 = 0x03;
+    pub const AT_LOW_PC: u64 = 0x11;
+    pub const AT_HIGH_PC: u64 = 0x12;
+    pub const AT_FRAME_BASE: u64 = 0x40;
+    pub const AT_ENTRY_PC: u64 = 0x52;
+    pub const AT_RANGES: u64 = 0x55;
+    pub const AT_ADDR_BASE: u64 = 0x73;
+    pub const AT_RNGLISTS_BASE: u64 = 0x74;
+    pub const AT_LOCLISTS_BASE: u64 = 0x8c;
+    pub const AT_GNU_DWO_ID: u64 = 0x2131;
+    pub const AT_GNU_RANGES_BASE: u64 = 0x2132;
+    pub const AT_GNU_ADDR_BASE: u64 = 0x2133;
+
+    pub const FORM_ADDR: u64 = 0x01;
+    pub const FORM_DATA2: u64 = 0x05;
+    pub const FORM_DATA4: u64 = 0x06;
+    pub const FORM_DATA8: u64 = 0x07;
+    pub const FORM_STRING: u64 = 0x08;
+    pub const FORM_BLOCK1: u64 = 0x0a;
+    pub const FORM_DATA1: u64 = 0x0b;
+    pub const FORM_FLAG: u64 = 0x0c;
+    pub const FORM_SDATA: u64 = 0x0d;
+    pub const FORM_UDATA: u64 = 0x0f;
+    pub const FORM_SEC_OFFSET: u64 = 0x17;
+    pub const FORM_EXPRLOC: u64 = 0x18;
+    pub const FORM_ADDRX: u64 = 0x1b;
+    pub const FORM_LOCLISTX: u64 = 0x22;
+    pub const FORM_RNGLISTX: u64 = 0x23;
+    pub const FORM_ADDRX1: u64 = 0x29;
+    pub const FORM_ADDRX2: u64 = 0x2a;
+    pub const FORM_ADDRX3: u64 = 0x2b;
+    pub const FORM_ADDRX4: u64 = 0x2c;
+    pub const FORM_GNU_ADDR_INDEX: u64 = 0x1f01;
+
+    pub const UT_COMPILE: u8 = 0x01;
+    pub const UT_SKELETON: u8 = 0x04;
+    pub const UT_SPLIT_COMPILE: u8 = 0x05;
+}
+
+// ---------------------------------------------------------------- list entries
+
+fn leb(a: &mut Asm, name: &'static str, v: u64, pad: usize) {
+    if pad > 0 {
+        let n = (uleb_bytes(v).len() + pad).min(10);
+        let b = uleb_padded(v, n);
+        a.f_bytes(FieldKind::Uleb, name, &b);
+    } else {
+        a.f_uleb(FieldKind::Uleb, name, v);
+    }
+}
+
+fn expr(a: &mut Asm, flavor: Flavor, d: &Option<Vec<u8>>, pad: usize) {
+    let empty = vec![];
+    let d = d.as_ref().unwrap_or(&empty);
+    match flavor {
+        Flavor::Ranges | Flavor::Rle => {}
+        Flavor::Loc | Flavor::GnuLle => {
+            a.f_uint(FieldKind::Length, "expr_len16", 2, d.len() as u64);
+            a.f_bytes(FieldKind::Data, "expr", d);
+        }
+        Flavor::Lle => {
+            leb(a, "expr_len", d.len() as u64, pad);
+            a.f_bytes(FieldKind::Data, "expr", d);
+        }
+    }
+}
+
+/// Can `it` be written in `flavor`?
+pub fn encodable(it: &Item, flavor: Flavor, addr: u8) -> bool {
+    let mask = m::addr_mask(addr);
+    match flavor {
+        Flavor::Ranges | Flavor::Loc => match it {
+            Item::Pair(b, e, d) => {
+                *b <= mask && *e <= mask && *b != mask && !(*b == 0 && *e == 0) && d.is_some() == (flavor == Flavor::Loc)
+                    && d.as_ref().map_or(true, |d| d.len() <= 0xffff)
+            }
+            Item::Base(x) => *x <= mask,
+            _ => false,
+        },
+        Flavor::Rle => match it {
+            Item::Pair(..) | Item::Default(..) => false,
+            Item::Base(x) => *x <= mask,
+            Item::StartEnd(b, e, _) => *b <= mask && *e <= mask,
+            Item::StartLength(b, _, _) => *b <= mask,
+            _ => it.data().is_none(),
+        },
+        Flavor::Lle | Flavor::GnuLle => {
+            let gnu = flavor == Flavor::GnuLle;
+            if gnu && it.data().map_or(false, |d| d.len() > 0xffff) {
+                return false;
+            }
+            match it {
+                Item::Pair(..) => false,
+                Item::Base(x) => *x <= mask,
+                Item::Basex(_) => true,
+                Item::Default(_) => true,
+                Item::StartEnd(b, e, d) => *b <= mask && *e <= mask && d.is_some(),
+                Item::StartLength(b, _, d) => *b <= mask && d.is_some(),
+                Item::StartxLength(_, l, d) => d.is_some() && (!gnu || *l <= 0xffff_ffff),
+                Item::StartxEndx(_, _, d) | Item::OffsetPair(_, _, d) => d.is_some(),
+            }
+        }
+    }
+}
+
+/// Append one entry.  `pad` > 0 writes ULEB128 operands with that many redundant bytes.
+pub fn encode_item(a: &mut Asm, it: &Item, flavor: Flavor, addr: u8, pad: usize) {
+    let n = addr as usize;
+    let mask = m::addr_mask(addr);
+    match flavor {
+        Flavor::Ranges | Flavor::Loc => match it {
+            Item::Pair(b, e, d) => {
+                a.f_uint(FieldKind::Address, "pair_begin", n, *b);
+                a.f_uint(FieldKind::Address, "pair_end", n, *e);
+                expr(a, flavor, d, 0);
+            }
+            Item::Base(x) => {
+                a.f_uint(FieldKind::Address, "base_marker", n, mask);
+                a.f_uint(FieldKind::Address, "base_addr", n, *x);
+            }
+            _ => panic_unencodable(it, flavor),
+        },
+        Flavor::Rle => match it {
+            Item::Basex(i) => {
+                a.f_uint(FieldKind::Opcode, "rle", 1, m::RLE_BASE_ADDRESSX as u64);
+                leb(a, "index", *i, pad);
+            }
+            Item::StartxEndx(b, e, _) => {
+                a.f_uint(FieldKind::Opcode, "rle", 1, m::RLE_STARTX_ENDX as u64);
+                leb(a, "index", *b, pad);
+                leb(a, "index", *e, pad);
+            }
+            Item::StartxLength(b, l, _) => {
+                a.f_uint(FieldKind::Opcode, "rle", 1, m::RLE_STARTX_LENGTH as u64);
+                leb(a, "index", *b, pad);
+                leb(a, "length", *l, pad);
+            }
+            Item::OffsetPair(b, e, _) => {
+                a.f_uint(FieldKind::Opcode, "rle", 1, m::RLE_OFFSET_PAIR as u64);
+                leb(a, "offset", *b, pad);
+                leb(a, "offset", *e, pad);
+            }
+            Item::Base(x) => {
+                a.f_uint(FieldKind::Opcode, "rle", 1, m::RLE_BASE_ADDRESS as u64);
+                a.f_uint(FieldKind::Address, "base_addr", n, *x);
+            }
+            Item::StartEnd(b, e, _) => {
+                a.f_uint(FieldKind::Opcode, "rle", 1, m::RLE_START_END as u64);
+                a.f_uint(FieldKind::Address, "begin", n, *b);
+                a.f_uint(FieldKind::Address, "end", n, *e);
+            }
+            Item::StartLength(b, l, _) => {
+                a.f_uint(FieldKind::Opcode, "rle", 1, m::RLE_START_LENGTH as u64);
+                a.f_uint(FieldKind::Address, "begin", n, *b);
+                leb(a, "length", *l, pad);
+            }
+            _ => panic_unencodable(it, flavor),
+        },
+        Flavor::Lle | Flavor::GnuLle => {
+            let gnu = flavor == Flavor::GnuLle;
+            match it {
+                Item::Basex(i) => {
+                    a.f_uint(FieldKind::Opcode, "lle", 1, m::LLE_BASE_ADDRESSX as u64);
+                    leb(a, "index", *i, pad);
+                }
+                Item::StartxEndx(b, e, d) => {
+                    a.f_uint(FieldKind::Opcode, "lle", 1, m::LLE_STARTX_ENDX as u64);
+                    leb(a, "index", *b, pad);
+                    leb(a, "index", *e, pad);
+                    expr(a, flavor, d, pad);
+                }
+                Item::StartxLength(b, l, d) => {
+                    a.f_uint(FieldKind::Opcode, "lle", 1, m::LLE_STARTX_LENGTH as u64);
+                    leb(a, "index", *b, pad);
+                    if gnu {
+                        a.f_uint(FieldKind::Size, "length32", 4, *l);
+                    } else {
+                        leb(a, "length", *l, pad);
+                    }
+                    expr(a, flavor, d, pad);
+                }
+                Item::OffsetPair(b, e, d) => {
+                    a.f_uint(FieldKind::Opcode, "lle", 1, m::LLE_OFFSET_PAIR as u64);
+                    leb(a, "offset", *b, pad);
+                    leb(a, "offset", *e, pad);
+                    expr(a, flavor, d, pad);
+                }
+                Item::Default(d) => {
+                    a.f_uint(FieldKind::Opcode, "lle", 1, m::LLE_DEFAULT_LOCATION as u64);
+                    expr(a, flavor, &Some(d.clone()), pad);
+                }
+                Item::Base(x) => {
+                    a.f_uint(FieldKind::Opcode, "lle", 1, m::LLE_BASE_ADDRESS as u64);
+                    a.f_uint(FieldKind::Address, "base_addr", n, *x);
+                }
+                Item::StartEnd(b, e, d) => {
+                    a.f_uint(FieldKind::Opcode, "lle", 1, m::LLE_START_END as u64);
+                    a.f_uint(FieldKind::Address, "begin", n, *b);
+                    a.f_uint(FieldKind::Address, "end", n, *e);
+                    expr(a, flavor, d, pad);
+                }
+                Item::StartLength(b, l, d) => {
+                    a.f_uint(FieldKind::Opcode, "lle", 1, m::LLE_START_LENGTH as u64);
+                    a.f_uint(FieldKind::Address, "begin", n, *b);
+                    leb(a, "length", *l, pad);
+                    expr(a, flavor, d, pad);
+                }
+                _ => panic_unencodable(it, flavor),
+            }
+        }
+    }
+}
+
+fn panic_unencodable(it: &Item, flavor: Flavor) -> ! {
+    // generator bug: reported as HARNESS-ERROR by the framework
+    panic!("gen::lists: {:?} cannot be encoded as {:?}", it.kind(), flavor)
+}
+
+pub fn encode_end(a: &mut Asm, flavor: Flavor, addr: u8) {
+    match flavor {
+        Flavor::Ranges | Flavor::Loc => {
+            a.f_uint(FieldKind::Address, "end_begin", addr as usize, 0);
+            a.f_uint(FieldKind::Address, "end_end", addr as usize, 0);
+        }
+        _ => {
+            a.f_uint(FieldKind::Opcode, "end_of_list", 1, 0);
+        }
+    }
+}
+
+pub fn encode_list(a: &mut Asm, items: &[Item], flavor: Flavor, addr: u8, terminated: bool, pad: usize) {
+    for it in items {
+        encode_item(a, it, flavor, addr, pad);
+    }
+    if terminated {
+        encode_end(a, flavor, addr);
+    }
+}
+
+// ---------------------------------------------------------------- value generators
+
+/// Boundary-biased address for an address size with mask `mask`.
+pub fn gen_addr(r: &mut Rng, mask: u64) -> u64 {
+    let v = match r.below(16) {
+        0 => 0,
+        1 => 1,
+        2 => 2,
+        3 => mask,
+        4 => mask.wrapping_sub(1),
+        5 => mask.wrapping_sub(2),
+        6 => mask.wrapping_sub(3),
+        7 => mask >> 1,
+        8 => (mask >> 1).wrapping_add(1),
+        9 | 10 => r.below(0x40),
+        11 => mask.wrapping_sub(r.below(0x40)),
+        _ => r.next(),
+    };
+    v & mask
+}
+
+pub const UNIT_BASES: usize = 8;
+/// Unit base addresses: zero / small / near max (the property's quantifier).
+pub fn unit_base(k: usize, mask: u64) -> u64 {
+    (match k % UNIT_BASES {
+        0 => 0,
+        1 => 1,
+        2 => 0x10,
+        3 => mask >> 1,
+        4 => mask.wrapping_sub(0x10),
+        5 => mask.wrapping_sub(2),
+        6 => mask.wrapping_sub(1),
+        _ => mask,
+    }) & mask
+}
+
+pub fn gen_expr(r: &mut Rng) -> Vec<u8> {
+    let n = match r.below(20) {
+        0 => 0,
+        1 => 127,
+        2 => 128,
+        3 => 129 + r.usize(200),
+        _ => 1 + r.usize(6),
+    };
+    r.bytes(n)
+}
+
+#[derive(Clone, Debug)]
+pub struct ItemCtx<'a> {
+    pub flavor: Flavor,
+    pub addr: u8,
+    /// entries of the address table (for index operands)
+    pub addrs: &'a [u64],
+    /// initial base address of the unit
+    pub base: u64,
+    /// allow DW_LLE_default_location/base_address/start_end/start_length in the GNU flavour
+    pub gnu_v5_kinds: bool,
+}
+
+fn gen_index(r: &mut Rng, n: usize) -> u64 {
+    if n == 0 {
+        return r.below(3);
+    }
+    match r.below(40) {
+        0 => n as u64,           // first slot past the table
+        1 => n as u64 + r.below(5),
+        2 => r.boundary(),       // hostile
+        _ => r.below(n as u64),
+    }
+}
+
+/// A (begin, end) pair of absolute addresses, biased to the filter's boundaries.
+fn gen_range(r: &mut Rng, mask: u64) -> (u64, u64) {
+    let b = gen_addr(r, mask);
+    let e = match r.below(10) {
+        0 => b,                                        // empty
+        1 => b.wrapping_sub(1 + r.below(4)) & mask,    // inverted
+        2 => mask,
+        3 => mask.wrapping_sub(1),
+        4 => gen_addr(r, mask),
+        _ => b.wrapping_add(1 + r.below(0x100)) & mask,
+    };
+    (b, e)
+}
+
+fn gen_length(r: &mut Rng, b: u64, mask: u64) -> u64 {
+    match r.below(12) {
+        0 => 0,
+        1 => 1,
+        2 => mask.wrapping_sub(b),                 // end = mask
+        3 => mask.wrapping_sub(b).wrapping_add(1), // wraps to 0
+        4 => mask.wrapping_sub(b).wrapping_add(2 + r.below(5)),
+        5 => u64::MAX,
+        6 => mask,
+        7 => r.boundary(),
+        _ => 1 + r.below(0x1000),
+    }
+}
+
+/// `n` random entries for `cx.flavor`; the running base is tracked so that offset pairs hit
+/// the interesting sums.
+pub fn gen_items(r: &mut Rng, cx: &ItemCtx, n: usize) -> Vec<Item> {
+    let mask = m::addr_mask(cx.addr);
+    let tomb = m::tombstone(cx.addr);
+    let is_loc = cx.flavor.is_loc();
+    let mut base = cx.base;
+    let mut out = Vec::with_capacity(n);
+    let data = |r: &mut Rng| if is_loc { Some(gen_expr(r)) } else { None };
+    while out.len() < n {
+        let it = match cx.flavor {
+            Flavor::Ranges | Flavor::Loc => {
+                if r.chance(1, 6) {
+                    let a = gen_addr(r, mask);
+                    base = a;
+                    Item::Base(a)
+                } else {
+                    // offsets relative to the running base
+                    let (tb, te) = gen_range(r, mask);
+                    let (b, e) = if r.chance(3, 4) {
+                        (tb.wrapping_sub(base) & mask, te.wrapping_sub(base) & mask)
+                    } else {
+                        (tb, te)
+                    };
+                    if b == mask || (b == 0 && e == 0) {
+                        continue;
+                    }
+                    Item::Pair(b, e, data(r))
+                }
+            }
+            Flavor::Rle | Flavor::Lle | Flavor::GnuLle => {
+                let gnu = cx.flavor == Flavor::GnuLle;
+                let nk = if cx.flavor == Flavor::Rle { 7 } else { 8 };
+                let k = r.below(nk);
+                // kinds: 0 basex 1 startx_endx 2 startx_length 3 offset_pair 4 base_address
+                //        5 start_end 6 start_length 7 default_location
+                if gnu && !cx.gnu_v5_kinds && k >= 4 {
+                    continue;
+                }
+                match k {
+                    0 => {
+                        let i = gen_index(r, cx.addrs.len());
+                        if let Some(a) = cx.addrs.get(i as usize) {
+                            base = *a;
+                        }
+                        Item::Basex(i)
+                    }
+                    1 => Item::StartxEndx(gen_index(r, cx.addrs.len()), gen_index(r, cx.addrs.len()), data(r)),
+                    2 => {
+                        let i = gen_index(r, cx.addrs.len());
+                        let b = cx.addrs.get(i as usize).copied().unwrap_or(0);
+                        let mut l = gen_length(r, b, mask);
+                        if gnu {
+                            l &= 0xffff_ffff;
+                        }
+                        Item::StartxLength(i, l, data(r))
+                    }
+                    3 => {
+                        let (tb, te) = gen_range(r, mask);
+                        let (mut b, mut e) = match r.below(8) {
+                            0 => (tb, te),
+                            1 => (tb.wrapping_sub(base), te.wrapping_sub(base)), // 64-bit wrap
+                            2 => (r.boundary(), r.boundary()),
+                            _ => (tb.wrapping_sub(base) & mask, te.wrapping_sub(base) & mask),
+                        };
+                        if base >= tomb && r.chance(1, 2) {
+                            b = r.below(0x20);
+                            e = b + 1 + r.below(0x20);
+                        }
+                        Item::OffsetPair(b, e, data(r))
+                    }
+                    4 => {
+                        let a = gen_addr(r, mask);
+                        base = a;
+                        Item::Base(a)
+                    }
+                    5 => {
+                        let (b, e) = gen_range(r, mask);
+                        Item::StartEnd(b, e, data(r))
+                    }
+                    6 => {
+                        let b = gen_addr(r, mask);
+                        Item::StartLength(b, gen_length(r, b, mask), data(r))
+                    }
+                    _ => Item::Default(gen_expr(r)),
+                }
+            }
+        };
+        out.push(it);
+    }
+    out
+}
+
+// ---------------------------------------------------------------- .debug_addr
+
+#[derive(Clone, Debug, Default)]
+pub struct AddrTable {
+    pub bytes: Vec<u8>,
+    /// value for DW_AT_addr_base
+    pub base: u64,
+    pub entries: Vec<u64>,
+}
+
+/// `n` boundary-biased table entries (every third one is a distinguishable plain value).
+pub fn gen_addr_entries(r: &mut Rng, mask: u64, n: usize) -> Vec<u64> {
+    (0..n).map(|i| if i % 3 == 0 { (0x20 + 0x10 * i as u64) & mask } else { gen_addr(r, mask) }).collect()
+}
+
+/// `.debug_addr` holding `entries`.  `layout`: 0 = bare entries at offset 0, 1 = DWARF 5
+/// header then entries, 2 = an unrelated first table, then header and entries, 3 = a few
+/// junk bytes (unaligned base) then entries.
+pub fn build_addr_table(r: &mut Rng, enc: Enc, layout: u64, entries: &[u64]) -> AddrTable {
+    let mut a = Asm::new(enc.le);
+    a.map = false;
+    let header = |a: &mut Asm, count: usize| {
+        // unit_length, version, address_size, segment_selector_size
+        let len = 4 + count as u64 * enc.addr as u64;
+        if enc.fmt64 {
+            a.u32(0xffff_ffff);
+            a.u64(len);
+        } else {
+            a.u32(len as u32);
+        }
+        a.u16(5);
+        a.u8(enc.addr);
+        a.u8(0);
+    };
+    match layout % 4 {
+        0 => {}
+        1 => header(&mut a, entries.len()),
+        2 => {
+            let k = 1 + r.usize(3);
+            header(&mut a, k);
+            for _ in 0..k {
+                let v = r.next();
+                a.uint(enc.addr as usize, v);
+            }
+            header(&mut a, entries.len());
+        }
+        _ => {
+            let k = 1 + r.usize(7);
+            let j = r.bytes(k);
+            a.bytes(&j);
+        }
+    }
+    let base = a.len() as u64;
+    for v in entries {
+        a.uint(enc.addr as usize, *v);
+    }
+    AddrTable { bytes: a.buf, base, entries: entries.to_vec() }
+}
+
+// ---------------------------------------------------------------- list sections
+
+#[derive(Clone, Debug)]
+pub struct PlacedList {
+    /// section offset of the first entry
+    pub off: u64,
+    pub items: Vec<Item>,
+    pub terminated: bool,
+}
+
+#[derive(Clone, Debug, Default)]
+pub struct ListSec {
+    pub bytes: Vec<u8>,
+    pub fields: Vec<Field>,
+    pub lists: Vec<PlacedList>,
+    /// v5: section offset of the offsets table (the value of DW_AT_rnglists_base /
+    /// DW_AT_loclists_base); 0 for the legacy sections
+    pub table_base: u64,
+    /// v5: number of entries in the offsets table (entry i -> lists[i])
+    pub table_len: usize,
+}
+
+/// Lay out `lists` in one section.  Legacy flavours: optional junk prefix, lists back to
+/// back.  v5 flavours: `pre_tables` unrelated tables first, then a table header
+/// (unit_length, version 5, address_size, segment_selector_size 0, offset_entry_count), the
+/// offsets (relative to the first offset's position) and the lists.  Only the last list may
+/// be unterminated.
+pub fn build_list_section(
+    r: &mut Rng,
+    enc: Enc,
+    flavor: Flavor,
+    lists: &[(Vec<Item>, bool)],
+    pre_tables: usize,
+    with_table: bool,
+    pad: usize,
+) -> ListSec {
+    let mut a = Asm::new(enc.le);
+    let mut out = ListSec::default();
+    let v5 = matches!(flavor, Flavor::Rle | Flavor::Lle);
+    if !v5 {
+        if pre_tables > 0 {
+            // junk in front so that list offsets are not 0 (and not aligned)
+            let k = 1 + r.usize(2 * enc.addr as usize + 3);
+            let j = r.bytes(k);
+            a.f_bytes(FieldKind::Data, "junk", &j);
+        }
+        for (i, (items, term)) in lists.iter().enumerate() {
+            let term = *term || i + 1 != lists.len();
+            out.lists.push(PlacedList { off: a.len() as u64, items: items.clone(), terminated: term });
+            encode_list(&mut a, items, flavor, enc.addr, term, pad);
+        }
+        out.bytes = a.buf;
+        out.fields = a.fields;
+        return out;
+    }
+    for _ in 0..pre_tables {
+        let mk = a.begin_length(enc.fmt64);
+        a.u16(5);
+        a.u8(enc.addr);
+        a.u8(0);
+        let k = r.below(3);
+        a.u32(k as u32);
+        for _ in 0..k {
+            a.word(enc.fmt64, 0);
+        }
+        a.u8(0);
+        a.end_length(mk);
+    }
+    let mk = a.begin_length(enc.fmt64);
+    a.f_uint(FieldKind::Version, "version", 2, 5);
+    a.f_uint(FieldKind::Size, "address_size", 1, enc.addr as u64);
+    a.f_uint(FieldKind::Size, "segment_selector_size", 1, 0);
+    let n_tab = if with_table { lists.len() } else { 0 };
+    a.f_uint(FieldKind::Count, "offset_entry_count", 4, n_tab as u64);
+    out.table_base = a.len() as u64;
+    out.table_len = n_tab;
+    let w = enc.word() as usize;
+    let tab_pos = a.len();
+    for _ in 0..n_tab {
+        a.f_uint(FieldKind::Offset, "offset_entry", w, 0);
+    }
+    for (i, (items, term)) in lists.iter().enumerate() {
+        let term = *term || i + 1 != lists.len();
+        let off = a.len();
+        out.lists.push(PlacedList { off: off as u64, items: items.clone(), terminated: term });
+        if with_table {
+            a.patch_uint(tab_pos + i * w, w, (off - tab_pos) as u64);
+        }
+        encode_list(&mut a, items, flavor, enc.addr, term, pad);
+    }
+    a.end_length(mk);
+    out.bytes = a.buf;
+    out.fields = a.fields;
+    out
+}
+
+// ---------------------------------------------------------------- minimal unit
+
+#[derive(Clone, Debug, PartialEq)]
+pub enum FormVal {
+    /// fixed-size unsigned integer of n bytes
+    Uint(usize, u64),
+    Uleb(u64),
+    Sleb(i64),
+    /// offset-sized word
+    Word(u64),
+    /// address-sized
+    Addr(u64),
+    /// ULEB128 length + bytes (exprloc, block)
+    Block(Vec<u8>),
+    /// 1-byte length + bytes (block1)
+    Block1(Vec<u8>),
+    /// NUL-terminated string
+    Str(Vec<u8>),
+}
+
+#[derive(Clone, Debug)]
+pub struct AttrSpec {
+    pub name: u64,
+    pub form: u64,
+    pub val: FormVal,
+}
+
+#[derive(Clone, Debug)]
+pub struct DieSpec {
+    pub tag: u64,
+    pub attrs: Vec<AttrSpec>,
+}
+
+#[derive(Clone, Debug, Default)]
+pub struct BuiltUnit {
+    pub info: Vec<u8>,
+    pub abbrev: Vec<u8>,
+}
+
+/// One unit: root DIE with `children` (flat) below it.  `unit_type` is used for version 5
+/// only (`dwo_id` is emitted for skeleton / split_compile).
+pub fn build_unit(enc: Enc, unit_type: u8, dwo_id: u64, root: &DieSpec, children: &[DieSpec]) -> BuiltUnit {
+    let mut ab = Asm::new(enc.le);
+    ab.map = false;
+    let mut a = Asm::new(enc.le);
+    a.map = false;
+    let mk = a.begin_length(enc.fmt64);
+    a.u16(enc.version);
+    if enc.version >= 5 {
+        a.u8(unit_type);
+        a.u8(enc.addr);
+        a.word(enc.fmt64, 0);
+        if unit_type == dwc::UT_SKELETON || unit_type == dwc::UT_SPLIT_COMPILE {
+            a.u64(dwo_id);
+        }
+    } else {
+        a.word(enc.fmt64, 0);
+        a.u8(enc.addr);
+    }
+    let mut code = 0u64;
+    let mut emit = |a: &mut Asm, ab: &mut Asm, d: &DieSpec, has_children: bool| {
+        code += 1;
+        ab.uleb(code);
+        ab.uleb(d.tag);
+        ab.u8(has_children as u8);
+        a.uleb(code);
+        for at in &d.attrs {
+            ab.uleb(at.name);
+            ab.uleb(at.form);
+            match &at.val {
+                FormVal::Uint(n, v) => {
+                    a.uint(*n, *v);
+                }
+                FormVal::Uleb(v) => {
+                    a.uleb(*v);
+                }
+                FormVal::Sleb(v) => {
+                    a.sleb(*v);
+                }
+                FormVal::Word(v) => {
+                    a.word(enc.fmt64, *v);
+                }
+                FormVal::Addr(v) => {
+                    a.uint(enc.addr as usize, *v);
+                }
+                FormVal::Block(b) => {
+                    a.uleb(b.len() as u64);
+                    a.bytes(b);
+                }
+                FormVal::Block1(b) => {
+                    a.u8(b.len() as u8);
+                    a.bytes(b);
+                }
+                FormVal::Str(s) => {
+                    a.cstr(s);
+                }
+            }
+        }
+        ab.uleb(0);
+        ab.uleb(0);
+    };
+    emit(&mut a, &mut ab, root, !children.is_empty());
+    for c in children {
+        emit(&mut a, &mut ab, c, false);
+    }
+    if !children.is_empty() {
+        a.u8(0);
+    }
+    ab.uleb(0);
+    a.end_length(mk);
+    BuiltUnit { info: a.buf, abbrev: ab.buf }
+}
+
+// ---------------------------------------------------------------- attribute builders
+
+/// Address-class attribute in a form fitting `enc.version`: returns the spec and the model
+/// value.  `idx`: use an index form with this index; otherwise DW_FORM_addr.
+pub fn addr_attr(r: &mut Rng, enc: Enc, name: u64, direct: u64, idx: Option<u64>) -> (AttrSpec, AddrVal) {
+    match idx {
+        None => (AttrSpec { name, form: dwc::FORM_ADDR, val: FormVal::Addr(direct) }, AddrVal::Direct(direct)),
+        Some(i) => {
+            let spec = if enc.version < 5 {
+                AttrSpec { name, form: dwc::FORM_GNU_ADDR_INDEX, val: FormVal::Uleb(i) }
+            } else {
+                // the smallest fixed form that holds the index, or the ULEB form
+                let mut forms: Vec<(u64, FormVal)> = vec![(dwc::FORM_ADDRX, FormVal::Uleb(i))];
+                if i <= 0xff {
+                    forms.push((dwc::FORM_ADDRX1, FormVal::Uint(1, i)));
+                }
+                if i <= 0xffff {
+                    forms.push((dwc::FORM_ADDRX2, FormVal::Uint(2, i)));
+                }
+                if i <= 0xff_ffff {
+                    forms.push((dwc::FORM_ADDRX3, FormVal::Uint(3, i)));
+                }
+                if i <= 0xffff_ffff {
+                    forms.push((dwc::FORM_ADDRX4, FormVal::Uint(4, i)));
+                }
+                let (form, val) = forms[r.usize(forms.len())].clone();
+                AttrSpec { name, form, val }
+            };
+            (spec, AddrVal::Index(i))
+        }
+    }
+}
+
+/// Section-offset class attribute (`DW_FORM_sec_offset`; `DW_FORM_data4`/`data8` in
+/// versions 2 and 3).
+pub fn secoff_attr(enc: Enc, name: u64, off: u64) -> AttrSpec {
+    if enc.version <= 3 {
+        if enc.fmt64 {
+            AttrSpec { name, form: dwc::FORM_DATA8, val: FormVal::Uint(8, off) }
+        } else {
+            AttrSpec { name, form: dwc::FORM_DATA4, val: FormVal::Uint(4, off) }
+        }
+    } else {
+        AttrSpec { name, form: dwc::FORM_SEC_OFFSET, val: FormVal::Word(off) }
+    }
+}
+
+/// A base attribute (DW_AT_addr_base, DW_AT_rnglists_base, ... and their GNU forerunners):
+/// always DW_FORM_sec_offset.
+pub fn base_attr(name: u64, off: u64) -> AttrSpec {
+    AttrSpec { name, form: dwc::FORM_SEC_OFFSET, val: FormVal::Word(off) }
+}
+
+pub const HIGH_PC_FORMS: [&str; 10] = ["absent", "addr", "addrx", "data1", "data2", "data4", "data8", "udata", "sdata", "sdata_neg"];
+
+/// DW_AT_high_pc in the form class `which` (see `HIGH_PC_FORMS`) describing the end address
+/// `low + size` (constant forms) or `end` (address forms).
+pub fn high_pc_attr(r: &mut Rng, enc: Enc, which: &str, end: u64, end_idx: u64, size: u64) -> Option<(AttrSpec, DieAttr)> {
+    let name = dwc::AT_HIGH_PC;
+    Some(match which {
+        "absent" => return None,
+        "addr" => {
+            let (s, v) = addr_attr(r, enc, name, end, None);
+            (s, DieAttr::HighPcAddr(v))
+        }
+        "addrx" => {
+            let (s, v) = addr_attr(r, enc, name, 0, Some(end_idx));
+            (s, DieAttr::HighPcAddr(v))
+        }
+        "data1" => (AttrSpec { name, form: dwc::FORM_DATA1, val: FormVal::Uint(1, size & 0xff) }, DieAttr::HighPcOffset(size & 0xff)),
+        "data2" => (AttrSpec { name, form: dwc::FORM_DATA2, val: FormVal::Uint(2, size & 0xffff) }, DieAttr::HighPcOffset(size & 0xffff)),
+        "data4" => (AttrSpec { name, form: dwc::FORM_DATA4, val: FormVal::Uint(4, size & 0xffff_ffff) }, DieAttr::HighPcOffset(size & 0xffff_ffff)),
+        "data8" => (AttrSpec { name, form: dwc::FORM_DATA8, val: FormVal::Uint(8, size) }, DieAttr::HighPcOffset(size)),
+        "udata" => (AttrSpec { name, form: dwc::FORM_UDATA, val: FormVal::Uleb(size) }, DieAttr::HighPcOffset(size)),
+        "sdata" => {
+            let s = size & (i64::MAX as u64);
+            (AttrSpec { name, form: dwc::FORM_SDATA, val: FormVal::Sleb(s as i64) }, DieAttr::HighPcOffset(s))
+        }
+        _ => {
+            let s = -1 - (size & 0xffff) as i64;
+            (AttrSpec { name, form: dwc::FORM_SDATA, val: FormVal::Sleb(s) }, DieAttr::HighPcNegative)
+        }
+    })
+}
